@@ -782,6 +782,25 @@ def str_method(eng, s, attr, args, kwargs, node, fr):
                 r = VStr(s.t, False)
                 r.l1 = True
                 return r
+            if enc in ("utf-8", "utf8", "ascii"):
+                # ASCII-only bytes decode to the same characters; otherwise the decoder may fail (demonic: it either raises
+                # UnicodeDecodeError or yields some text no longer than the input)
+                ascii_only = z3.InRe(s.t, z3.Star(z3.Range(chr(0), chr(127))))
+                sv = strval(s)
+                if sv is not None:
+                    try:
+                        return VStr(sv.encode("latin-1").decode(enc), False)
+                    except UnicodeDecodeError:
+                        raise RaiseSig(VExc("UnicodeDecodeError"))
+                if eng.branch(ascii_only):
+                    r = VStr(s.t, False)
+                    r.l1 = True
+                    return r
+                if eng.branch(eng.fresh_bool("decode_fails").t) or enc == "ascii":
+                    raise RaiseSig(VExc("UnicodeDecodeError"))
+                r = eng.fresh_str("decoded", False)
+                eng.assume(z3.Length(r.t) <= z3.Length(s.t))
+                return r
             raise OutOfSubset("decode(%r)" % enc, node)
         if s.bytes:
             raise RaiseSig(VExc("AttributeError"))
